@@ -1,0 +1,171 @@
+// +build verif,linux
+
+// Hooks for the verification harness (build tag "verif"). Add-only: nothing in
+// this file is compiled into a normal build.
+
+package canary
+
+import (
+	"context"
+	"math/rand"
+	"net"
+	"sync"
+	"syscall"
+	"time"
+
+	"github.com/glycerine/rbuf"
+	"github.com/honeytrap/honeytrap/listener/canary/ethernet"
+	"github.com/honeytrap/honeytrap/listener/canary/ipv4"
+	"github.com/honeytrap/honeytrap/pushers"
+)
+
+// VerifNew builds a Canary on an unprivileged epoll instance plus an AF_UNIX
+// datagram socketpair (instead of AF_PACKET sockets), with caller-supplied
+// interface, ARP and route tables. Frames written to the returned peer
+// descriptor flow through the real Start() receive loop.
+func VerifNew(intfs []net.Interface, ac ARPCache, rt RouteTable, events pushers.Channel) (*Canary, int, error) {
+	epfd, err := syscall.EpollCreate1(0)
+	if err != nil {
+		return nil, -1, err
+	}
+
+	fds, err := syscall.Socketpair(syscall.AF_UNIX, syscall.SOCK_DGRAM, 0)
+	if err != nil {
+		return nil, -1, err
+	}
+
+	if err = syscall.EpollCtl(epfd, syscall.EPOLL_CTL_ADD, fds[0], &syscall.EpollEvent{
+		Events: syscall.EPOLLIN | syscall.EPOLLERR,
+		Fd:     int32(fds[0]),
+	}); err != nil {
+		return nil, -1, err
+	}
+
+	c := &Canary{
+		ac:                ac,
+		rt:                rt,
+		epfd:              epfd,
+		descriptors:       map[string]int32{},
+		networkInterfaces: []net.Interface{},
+		r:                 rand.New(rand.NewSource(time.Now().UTC().UnixNano())),
+		knockChan:         make(chan interface{}, 100),
+		events:            events,
+		m:                 sync.Mutex{},
+		ch:                make(chan net.Conn),
+		buffer:            rbuf.NewFixedSizeRingBuf(65535),
+	}
+
+	for _, intf := range intfs {
+		c.descriptors[intf.Name] = int32(fds[0])
+		c.networkInterfaces = append(c.networkInterfaces, intf)
+	}
+
+	return c, fds[1], nil
+}
+
+// VerifHandleTCP injects a parsed segment synchronously into the real handleTCP.
+func (c *Canary) VerifHandleTCP(eh *ethernet.Frame, iph *ipv4.Header, data []byte) error {
+	return c.handleTCP(eh, iph, data)
+}
+
+// VerifHandleUDP injects a parsed datagram synchronously into the real handleUDP.
+func (c *Canary) VerifHandleUDP(eh *ethernet.Frame, iph *ipv4.Header, data []byte) error {
+	return c.handleUDP(eh, iph, data)
+}
+
+// VerifHandleICMP injects a parsed message synchronously into the real handleICMP.
+func (c *Canary) VerifHandleICMP(eh *ethernet.Frame, iph *ipv4.Header, data []byte) error {
+	return c.handleICMP(eh, iph, data)
+}
+
+// VerifDrainTx removes and returns the frames queued in the transmit ring.
+func (c *Canary) VerifDrainTx() [][]byte {
+	var frames [][]byte
+	for {
+		hdr := [2]byte{}
+		if n, err := c.buffer.Read(hdr[:]); err != nil || n < 2 {
+			return frames
+		}
+		frame := make([]byte, int(hdr[0])<<8+int(hdr[1]))
+		n, _ := c.buffer.Read(frame)
+		frames = append(frames, frame[:n])
+	}
+}
+
+// VerifKnockDetector runs the real knock detector until ctx is done.
+func (c *Canary) VerifKnockDetector(ctx context.Context) {
+	c.knockDetector(ctx)
+}
+
+// VerifKnock delivers a knock to the detector the way the handlers do.
+func (c *Canary) VerifKnock(k interface{}) {
+	c.knockChan <- k
+}
+
+// VerifTCB is a copy of the sequence variables of one connection state.
+type VerifTCB struct {
+	State   int
+	ISS     uint32
+	SndUna  uint32
+	SndNxt  uint32
+	RcvNxt  uint32
+	ID      uint32
+	SrcPort uint16
+	DstPort uint16
+	SrcIP   net.IP
+	DstIP   net.IP
+}
+
+// VerifLookup returns what StateTable.Get finds for the 4-tuple.
+func (c *Canary) VerifLookup(src, dst net.IP, sport, dport uint16) *VerifTCB {
+	s := c.stateTable.Get(src, dst, sport, dport)
+	if s == nil {
+		return nil
+	}
+	s.m.Lock()
+	defer s.m.Unlock()
+	return &VerifTCB{
+		State: int(s.State), ISS: s.InitialSendSequenceNumber,
+		SndUna: s.SendUnacknowledged, SndNxt: s.SendNext, RcvNxt: s.RecvNext, ID: s.ID,
+		SrcPort: s.SrcPort, DstPort: s.DestPort, SrcIP: s.SrcIP, DstIP: s.DestIP,
+	}
+}
+
+// VerifRebaseISS shifts the send sequence space of the connection the 4-tuple
+// resolves to so that its initial send sequence number is iss, as if that
+// value had been drawn (the drawn value is not steerable otherwise).
+func (c *Canary) VerifRebaseISS(src, dst net.IP, sport, dport uint16, iss uint32) bool {
+	s := c.stateTable.Get(src, dst, sport, dport)
+	if s == nil {
+		return false
+	}
+	s.m.Lock()
+	defer s.m.Unlock()
+	d := iss - s.InitialSendSequenceNumber
+	s.InitialSendSequenceNumber += d
+	s.SendUnacknowledged += d
+	s.SendNext += d
+	return true
+}
+
+// VerifStateCount returns the number of occupied slots of the state table.
+func (c *Canary) VerifStateCount() int {
+	n := 0
+	for i := range c.stateTable {
+		if c.stateTable[i] != nil {
+			n++
+		}
+	}
+	return n
+}
+
+// VerifAgeStates moves the activity time of every state back by d.
+func (c *Canary) VerifAgeStates(d time.Duration) {
+	for i := range c.stateTable {
+		if s := c.stateTable[i]; s != nil {
+			s.m.Lock()
+			s.t = s.t.Add(-d)
+			s.m.Unlock()
+		}
+	}
+}
